@@ -77,6 +77,7 @@ var (
 	timeoutF = flag.Int("timeout", 0, "per-query timeout in seconds (0 = tier default)")
 	listOnly = flag.Bool("list", false, "list obligations without solving")
 	overlayF = flag.String("overlay", "", "JSON file {path: replacement file} applied when loading (self-test mutants)")
+	replayDirF = flag.String("replaydir", "", "directory for replay files (default <verif>/replay/<prop>)")
 	par      = flag.Int("par", 16, "solver processes in parallel")
 )
 
@@ -129,6 +130,7 @@ func run() int {
 		}
 	}
 	overlay := map[string][]byte{}
+	overlayFiles := map[string]string{}
 	if *overlayF != "" {
 		var m map[string]string
 		b, err := os.ReadFile(*overlayF)
@@ -144,6 +146,7 @@ func run() int {
 				return fatal("%v", err)
 			}
 			overlay[k] = c
+			overlayFiles[k] = v
 		}
 	}
 	var extra []string
@@ -158,6 +161,7 @@ func run() int {
 		return fatal("loading %v: %v", cfg.Packages, err)
 	}
 	loadS := time.Since(tLoad).Seconds()
+	eng.OverlayFiles = overlayFiles
 
 	// generate
 	tGen := time.Now()
@@ -363,6 +367,9 @@ func run() int {
 		}
 	}
 	replayDir := filepath.Join(*verifDir, "replay", *prop)
+	if *replayDirF != "" {
+		replayDir = *replayDirF
+	}
 	for _, r := range knownHit {
 		k := knownFor[r.O.Name]
 		fmt.Printf("KNOWN-FINDING: property=%s %s %s\n", *prop, r.O.Name, k.What)
